@@ -547,6 +547,31 @@ func (tm *TermManager) bin(op Op, a, b *Term) *Term {
 			return a
 		}
 	case OpBOr:
+		// byte reassembly: zext(x)<<j | zext(y)<<k with adjacent fields becomes a concatenation
+		if va, sa, ok := tm.placement(a); ok {
+			if vb, sb, ok := tm.placement(b); ok {
+				var hi, lo *Term
+				shift := -1
+				if sa == sb+vb.w {
+					hi, lo, shift = va, vb, sb
+				} else if sb == sa+va.w {
+					hi, lo, shift = vb, va, sa
+				}
+				if shift >= 0 && hi.w+lo.w+shift <= w {
+					v := tm.Concat(hi, lo)
+					var r *Term
+					if v.w == w {
+						r = v
+					} else {
+						r = tm.ZExt(v, w)
+					}
+					if shift > 0 {
+						r = tm.bin(OpShl, r, tm.BV(uint64(shift), w))
+					}
+					return r
+				}
+			}
+		}
 		if a.IsConst() {
 			a, b = b, a
 		}
@@ -570,6 +595,23 @@ func (tm *TermManager) bin(op Op, a, b *Term) *Term {
 		}
 		if a == b {
 			return tm.BV(0, w)
+		}
+		// (x ^ y) ^ y -> x
+		if a.op == OpBXor {
+			if a.args[0] == b {
+				return a.args[1]
+			}
+			if a.args[1] == b {
+				return a.args[0]
+			}
+		}
+		if b.op == OpBXor {
+			if b.args[0] == a {
+				return b.args[1]
+			}
+			if b.args[1] == a {
+				return b.args[0]
+			}
 		}
 	case OpShl, OpLShr, OpAShr:
 		if b.IsConst() && b.val == 0 {
@@ -830,8 +872,34 @@ func (tm *TermManager) Extract(a *Term, hi, lo int) *Term {
 	return tm.mk(&Term{op: OpExtract, w: w, args: []*Term{a}, hi: hi, lo: lo})
 }
 
+// placement recognises t = zext(v) << shift.
+func (tm *TermManager) placement(t *Term) (*Term, int, bool) {
+	switch t.op {
+	case OpZExt:
+		return t.args[0], 0, true
+	case OpShl:
+		if t.args[1].IsConst() {
+			if v, s, ok := tm.placement(t.args[0]); ok {
+				k := int(t.args[1].val)
+				if v.w+s+k <= t.w {
+					return v, s + k, true
+				}
+			}
+		}
+	}
+	return nil, 0, false
+}
+
 func (tm *TermManager) Concat(h, l *Term) *Term {
 	w := h.w + l.w
+	// concat(extract(x,a,b), extract(x,b-1,c)) -> extract(x,a,c)
+	if h.op == OpExtract && l.op == OpExtract && h.args[0] == l.args[0] && h.lo == l.hi+1 {
+		return tm.Extract(h.args[0], h.hi, l.lo)
+	}
+	// concat(a, concat(b, c)) with a,b adjacent extracts
+	if h.op == OpExtract && l.op == OpConcat && l.args[0].op == OpExtract && h.args[0] == l.args[0].args[0] && h.lo == l.args[0].hi+1 {
+		return tm.Concat(tm.Extract(h.args[0], h.hi, l.args[0].lo), l.args[1])
+	}
 	if h.IsConst() && l.IsConst() && w <= 64 {
 		return tm.BV(h.val<<uint(l.w)|l.val, w)
 	}
